@@ -279,8 +279,30 @@ def run_sliding(R, cfg):
     R.sample({"config": cfg, "n": n})
 
 
+def run_rubik_env(R, cfg):
+    """'the solved test accepts exactly the goal configuration' at ENVIRONMENT level: one symbolic step of the real RubiksCube.step
+    from an arbitrary sticker assignment and any action pays reward 1 and ends the episode exactly when the cube AFTER the move has
+    six uniform faces (recomputed from the raw stickers), and otherwise ends only at the time limit."""
+    from checks import drivers as D
+    H = base.get(cfg)
+    sp = D.build_step(R, H)
+
+    def obl(st, act, ns, ts):
+        solved = H._solved(vs(ns.cube))
+        t1 = vs(st.step_count) + 1
+        one, zero = np.float32(1.0), np.float32(0.0)
+        return [("env: reward == 1 exactly when the cube after the move is solved (six uniform faces), else 0", vs(ts.reward) == where(solved, one, zero, np.float32)),
+                ("env: the episode ends exactly when the cube after the move is solved or the time limit is reached", (vs(ts.step_type) == 2).iff(solved | (t1 >= H.T))),
+                ("env: a solved cube is terminal with zero discount", solved.implies((vs(ts.step_type) == 2) & (vs(ts.discount) == zero)))]
+    D.prove_list(R, sp, obl)
+    R.reach("env: a move that solves the cube exists in the harness domain", sp.A, H._solved(vs(sp.ns.cube)).z())
+    R.reach("env: a move that leaves the solved cube exists in the harness domain", sp.A, (H._solved(vs(sp.st.cube)) & ~H._solved(vs(sp.ns.cube))).z())
+
+
 def jobs(tier, seed):
     js = [(f"Rubik/n={n}", "checks.C17", "run_rubik", {"n": n}) for n in ([2, 3, 4, 5] if tier == "quick" else [2, 3, 4, 5, 6, 7])]
     for cfg in (["SlidingTilePuzzle@2", "SlidingTilePuzzle@3"] if tier == "quick" else ["SlidingTilePuzzle@2", "SlidingTilePuzzle@3", "SlidingTilePuzzle@4"]):
         js.append((f"{cfg}", "checks.C17", "run_sliding", {"cfg": cfg}))
+    for cfg in (["RubiksCube@2", "RubiksCube@3"] if tier == "quick" else ["RubiksCube@2", "RubiksCube@3", "RubiksCube@4"]):
+        js.append((f"{cfg}/env-solved", "checks.C17", "run_rubik_env", {"cfg": cfg}))
     return js
